@@ -8,7 +8,7 @@
     (TraverseSchema) and the construction of DFAContentModel from the converted tree (including the counting states
     used for the compact Loop form, whose intended semantics is the clause for [CLoop] in [Lc]) are tied to the code
     by the correspondence run only. *)
-From XV Require Import C08.Spec08 C08.Model08 C08.Proofs08a C08.Proofs08b C08.Proofs08c C08.Proofs08d.
+From XV Require Import C08.Spec08 C08.Model08 C08.Proofs08a C08.Proofs08b C08.Proofs08c C08.Proofs08d C08.Proofs08e.
 
 Notation u1 := 1%N. Notation u2 := 2%N. Notation u3 := 3%N. Notation u4 := 4%N.
 
@@ -122,3 +122,39 @@ Proof.
   split; [|repeat split; vm_compute; reflexivity].
   apply nodupb_NoDup. vm_compute. reflexivity.
 Qed.
+
+(** attribute uses: the per-attribute decision and the required / default / fixed loop of buildAttList agree with
+    3.4.4 clauses 3-4 and 3.4.5, for every declaration table and attribute set in which no provided attribute names a
+    declaration with use = prohibited (that class is the known finding C08-prohibited, refuted below) *)
+Theorem T08_attr_uses : forall d declared atts, no_prohibited_hit d atts = true ->
+  m_attrs_valid d declared atts = attrs_valid d declared atts.
+Proof. exact m_attrs_valid_spec. Qed.
+Print Assumptions T08_attr_uses.
+
+Theorem T08_attr_defaults : forall d declared atts, m_attrs_valid d declared atts = true ->
+  m_defaulted d atts = defaulted d atts.
+Proof. exact m_defaulted_spec. Qed.
+Print Assumptions T08_attr_defaults.
+
+Definition ex_decls : attrdecls :=
+  {| ad_uses := [ {| au_name := (u1, 1%N); au_use := URequired; au_vc := VFixed [70%N] |};
+                  {| au_name := (u1, 2%N); au_use := UOptional; au_vc := VDefault [71%N] |};
+                  {| au_name := (u1, 3%N); au_use := UProhibited; au_vc := VNone |} ];
+     ad_wild := Some (NsSet [u1; u3], PcStrict) |}.
+Example T08_attr_uses_nonvacuous :
+  let atts := [((u1, 1%N), [70%N]); ((u3, 9%N), [72%N])] in
+  no_prohibited_hit ex_decls atts = true /\
+  m_attrs_valid ex_decls (fun q => qname_eqb q (u3, 9%N)) atts = true /\
+  m_defaulted ex_decls atts = [((u1, 2%N), [71%N])] /\
+  m_attrs_valid ex_decls (fun _ => false) atts = false /\
+  m_attrs_valid ex_decls (fun _ => true) [((u1, 1%N), [75%N])] = false /\
+  m_attrs_valid ex_decls (fun _ => true) [((u1, 2%N), [75%N])] = false.
+Proof. cbv zeta. repeat split; vm_compute; reflexivity. Qed.
+
+(** known finding C08-prohibited: a prohibited declaration is no attribute use, the wildcard decides *)
+Theorem T08_attr_prohibited_refuted : exists d declared atts,
+  attrs_valid d declared atts = true /\ m_attrs_valid d declared atts = false.
+Proof.
+  exists ex_decls, (fun _ => true), [((u1, 1%N), [70%N]); ((u1, 3%N), [72%N])]. split; vm_compute; reflexivity.
+Qed.
+Print Assumptions T08_attr_prohibited_refuted.
